@@ -5,7 +5,7 @@ Seq/AccessModel.v — every row: atomic loads/swaps of the container's pointer (
 strong count of every object, the value seen through every live projection guard — plus a
 direct oracle of the property statement computed independently in Python (search for a failing
 input)."""
-import os, sys, json, random, time, hashlib
+import os, sys, json, random, time, hashlib, subprocess
 HERE = os.path.dirname(os.path.abspath(__file__))
 TOOLS = os.path.dirname(HERE)
 ROOT = os.path.dirname(TOOLS)
@@ -279,6 +279,15 @@ def run(pid, cfg, tier, seed, workdir, already_broken):
     n_cases = 260 if tier == "quick" else 12000
     cases = [gen_case(rng, i) for i in range(n_cases)]
     broken, findings = [], []
+    # guards whose snapshot is stored inline in the guard (Map over Constant, ...), moved between dereferences
+    try:
+        pr = subprocess.run([sx.exe(), "constmove"], stdout=subprocess.PIPE, stderr=subprocess.STDOUT, timeout=120)
+        ctxt, crc = pr.stdout.decode(errors="replace"), pr.returncode
+    except (subprocess.TimeoutExpired, OSError) as ex:
+        ctxt, crc = repr(ex), -9
+    if crc != 0 or "CONSTMOVE-OK" not in ctxt:
+        findings.append({"message": "C17 fails on the implementation: a projection guard does not keep denoting the projection of its own snapshot when it is moved: " + ctxt.strip()[-400:], "cls": None,
+                         "replay": {"case": "cd /verif/harness/seqx && cargo build --offline && target/debug/seqx constmove", "impl_result": ctxt.splitlines()[-10:]}})
     rc, results, err = _run_cases(cases, workdir, "access")
     if len(results) != len(cases):
         broken.append("harness seqx access failed (exit %s, %d of %d result lines): %s" % (rc, len(results), len(cases), err[-300:]))
